@@ -245,7 +245,8 @@ def run(tier, replay=None):
         summ["separations_confirmed"], summ["separations"], summ["wall_s"]))
     rep.cov["evaluations"] += summ["codec_checks"]
     rep.add_samples(summ["samples"], 3)
-    executed = summ["executed"]
+    executed = summ["executed"] + summ.get("http_expect_executed", 0)
+    rep.extra["http_expect_proxy_sessions"] = summ.get("http_expect_executed", 0)
     rep.extra["codec_checks"] = summ["codec_checks"]
     rep.extra["behaviours_generated"] = n_beh[0]
     rep.extra["segment_separations"] = [summ["separations_confirmed"], summ["separations"]]
